@@ -3,6 +3,35 @@
 import json, subprocess, sys
 ALL = ["C%02d" % i for i in range(1, 21)]
 CHECKS = {
+ "C08": dict(level="exploration", ref="DESIGN.md §3 C08",
+   technique="runtime reference-model monitor: real fragmentation.Process vs per-key byte-map reference in lock-step (exhaustive small scope + PRNG), -race concurrent delivery, virtual-time (synctest) timeout scenarios",
+   text="Every fragment fed to the real reassembler is also fed to a reference byte map; delivery is demanded exactly when the reference is complete (incl. last fragment) and the delivered bytes are compared with the key/offset-coded original. Small scopes are enumerated completely (all compositions x orders x one extra duplicate/overlap), larger ones sampled; concurrent delivery runs under the race detector; the timeout clause runs in virtual time.",
+   note="Trusted: the reference in h/c08; Go's testing/synctest for virtual time (go1.26.8). Contradictory overlaps and fragments beyond the datagram are out of the judged domain."),
+ "C10": dict(level="exploration", ref="DESIGN.md §3 C10",
+   technique="runtime reference-model monitor in lock-step; porcupine linearizability check of recorded concurrent histories under the race detector; adaptive probe-sequence oracle for the ephemeral search",
+   text="Sequential op sequences are replayed against a reference reservation table after every step; concurrent reserve/release/availability histories from 2-8 goroutines are recorded at the call boundary and checked by porcupine (partitioned per transport/port) in a -race build; the ephemeral search is driven by a callback that picks the only acceptable port after seeing where the search started, so every call forces a chosen fraction of a full cycle.",
+   note="Trusted: reference table (6-bit set per transport/port), porcupine v1.3.0, logical clock (atomic counter)."),
+ "C15": dict(level="exploration", ref="DESIGN.md §3 C15",
+   technique="runtime differential monitor against an independent RFC codec (h/rfc): exhaustive per-field sweeps, exhaustive ChecksumCombine, every buffer length, option-sequence enumeration, hostile parser inputs with panic capture",
+   text="Each header encoder/getter is executed for every value of every field up to 16 bits (others PRNG) and compared in both directions with an independent codec; Checksum is compared with a reference RFC 1071 sum for every length and all 2^16 initial values on short buffers; ChecksumCombine is checked on all 2^32 pairs; TCP option parsers are run on every option sequence up to a bound and on hostile bytes, a panic being the observable for an out-of-input read.",
+   note="Trusted: h/rfc (imports nothing from /repo); Go bounds checking turns out-of-input reads into panics."),
+ "C16": dict(level="exploration", ref="DESIGN.md §3 C16",
+   technique="runtime reference-model monitor: every operation on View/VectorisedView/Prependable mirrored on a plain []byte, compared after every step; exhaustive small scope + PRNG sequences",
+   text="All chunkings (incl. empty chunks) of short contents and all operation sequences up to a bound over trim/cap/remove-first/clone are enumerated, every live object (original and clones) compared with its reference byte string after every step; long random sequences on large contents; re-extension beyond a cap and Prependable regions checked through cap()/panic.",
+   note="Trusted: the []byte reference in h/c16. View.CapLength beyond the current length is counted, not judged."),
+ "C17": dict(level="exploration", ref="DESIGN.md §3 C17",
+   technique="runtime monitor: callbacks attributed to the Notify call that ran them; exhaustive sequential enumeration against a reference set; porcupine linearizability check of concurrent histories under the race detector; token-presence invariant for channel entries",
+   text="Every legal register/unregister/notify sequence up to a bound is executed and the callbacks of each Notify compared with the reference set; concurrent histories (2-6 goroutines) are checked by porcupine against the set specification in a -race build; for channel entries a harness lock makes (take token, count) atomic so 'token present or taken since the call' is judged without a clock.",
+   note="Trusted: reference set model, porcupine, goroutine-id attribution (callbacks run synchronously on the notifier)."),
+ "C18": dict(level="exploration", ref="DESIGN.md §3 C18",
+   technique="systematic schedule exploration of the real mutex at verif schedule points (controller runs one goroutine at a time; DFS over decision sequences with replay) + stress under the race detector with injected pre-emption, occupancy monitor, porcupine, state-based lost-wake-up verdict",
+   text="For small programs of Lock/TryLock/Unlock every interleaving at the granularity of the mutex's atomic operations is enumerated on the real code; a deadlock is 'no enabled goroutine' (logical), mutual exclusion is an occupancy counter, TryLock's clause is judged when no other step overlapped. Larger programs are sampled (capped DFS, random priorities) and stress-run under -race with seeded delays at the same points.",
+   note="Trusted: the controller's enabledness rule (receive enabled iff a token is queued), add-only hooks in pkg/tmutex. Load+Swap of Lock's re-check are one controlled step."),
+ "C19": dict(level="exploration", ref="DESIGN.md §3 C19",
+   technique="stress under the race detector with seeded delays at the algorithm's atomic operations; porcupine on recorded Assert/Clear/Fetch histories; state-based lost-wake-up verdict; hook monitor + plain-store canary for touches after Done",
+   text="The real Sleeper/Waker (real gopark/commitSleep/goready) is driven by 1 fetcher and 1-8 asserters with delays injected at the verif points; each history is checked by porcupine against the asserted-flag specification; a lost wake-up is concluded from state once every Assert has returned; after Done the sleeper is overwritten with plain stores so any later touch is a race report, and a hook monitor flags a waker that reaches an enqueue step on a sleeper whose Done has returned.",
+   note="Trusted: the specification in h/c19 (strict for single-asserter wakers), race detector semantics for sync/atomic. Known finding: enqueueAssertedWaker reads waitingG after Done returned."),
+
  "C14": dict(level="exploration", ref="DESIGN.md §3 C14",
    technique="runtime differential monitor: real seqnum functions vs 64-bit reference definitions over boundary lattices, strided/exhaustive distance sweeps and PRNG tuples",
    text="Every exported seqnum function is executed on boundary lattices around every power of two from wrap-adjacent base points, a strided sweep (thorough: all 2^32 distances per base) and PRNG tuples, and each result is compared with the serial-number definition evaluated in 64-bit integers. Exploration, not proof: the operand space of the 3- and 4-argument functions is sampled.",
